@@ -101,7 +101,21 @@ def structural_guards(n: ast.AST, stop: ast.AST | None = None) -> list[tuple[ast
         if isinstance(par, (ast.FunctionDef, ast.AsyncFunctionDef)):
             break
         cur = par
-    return out[::-1]
+    # `not c` taken  ==  `c` not taken: rules see the core test with the polarity adjusted, so `if not c: B else: A` reads like `if c: A else: B`
+    norm_out = []
+    for t, pol in out[::-1]:
+        while isinstance(t, ast.UnaryOp) and isinstance(t.op, ast.Not):
+            t, pol = t.operand, not pol
+        norm_out.append((t, pol))
+    return norm_out
+
+
+def if_arms(n: ast.If) -> tuple[ast.expr, list[ast.stmt], list[ast.stmt]]:
+    """(core test, statements run when the core test holds, statements run when it does not) — leading `not`s removed."""
+    t, a, b = n.test, n.body, n.orelse
+    while isinstance(t, ast.UnaryOp) and isinstance(t.op, ast.Not):
+        t, a, b = t.operand, b, a
+    return t, a, b
 
 
 def enclosing_loops(n: ast.AST) -> list[ast.AST]:
